@@ -136,6 +136,36 @@ flag_harness!(display_width, "{:7}", |plain, s, neg| {
     assert!(s.len == if plain.len + off > 7 { plain.len + off } else { 7 });
 });
 
+// width together with a precision: the text of `{:.3}` padded to the width (padding must count the trailing zeros that
+// pad_and_print writes separately from the digit buffer)
+macro_rules! wp_harness {
+    ($name:ident, $fmt:expr, $left:expr, $fill:expr) => {
+        #[cfg(kani)]
+        #[kani::proof]
+        #[kani::unwind(30)]
+        #[kani::stub(core::str::from_utf8, fake_from_utf8)]
+        pub fn $name() {
+            let abs: u8 = kani::any();
+            let f: u32 = kani::any();
+            kani::assume(f <= 8);
+            let mut plain = Sink::new();
+            assert!(write!(plain, "{:.3}", FmtDec(false, abs, f)).is_ok());
+            let mut s = Sink::new();
+            assert!(write!(s, $fmt, FmtDec(false, abs, f)).is_ok());
+            let w = if plain.len > 10 { plain.len } else { 10 };
+            assert!(s.len == w);
+            let pad = w - plain.len;
+            let off = if $left { 0 } else { pad };
+            same_digits(&plain, &s, off);
+            let mut i = 0;
+            while i < CAP { if i < pad { assert!(s.buf[if $left { plain.len + i } else { i }] == $fill); } i += 1; }
+        }
+    };
+}
+wp_harness!(display_width_precision, "{:>10.3}", false, b' ');
+wp_harness!(display_width_precision_left, "{:<10.3}", true, b' ');
+wp_harness!(display_width_precision_zero, "{:010.3}", false, b'0');
+
 // radix 2^k: `{:x}` / `{:b}` / `{:o}` print the exact value; '#' adds the prefix
 fn read_radix(s: &Sink, start: usize, radix: u32) -> (u64, usize, bool) {
     let mut val: u64 = 0; let mut fd: usize = 0; let mut seen_pt = false; let mut ok = true;
